@@ -1,5 +1,6 @@
 import Driver.CacheDriver
 import Driver.StoreDriver
+import Driver.ArgDriver
 open Driver
 
 def main (args : List String) : IO UInt32 := do
@@ -7,5 +8,6 @@ def main (args : List String) : IO UInt32 := do
   let stdout ← IO.getStdout
   match args with
   | ["cache"] => loop CacheDriver.stepLine stdin stdout (Memento.Cache.init 0); return 0
+  | ["arghash"] => loop ArgDriver.stepLine stdin stdout (); return 0
   | ["store"] => loop StoreDriver.stepLine stdin stdout StoreDriver.St.none; return 0
   | _ => IO.eprintln "usage: mmodel <model>"; return 2
